@@ -24,6 +24,9 @@ pub enum Ty {
     /// an owned, non-`Copy` value (`String`): displayed by reference, handed on as `own.clone()`;
     /// a block that captures it must borrow it, not move it
     Owned,
+    /// an owned `String` that the template uses at most once, **by value**, inside a block argument that is
+    /// not in a loop: the closure ructe builds for the block must be allowed to consume what it captures
+    Gift,
 }
 
 const GLOBALS: &[(&str, Ty, &str)] = &[
@@ -40,6 +43,7 @@ const GLOBALS: &[(&str, Ty, &str)] = &[
     ("q", Ty::OptI32, "Option<i32>"),
     ("pts", Ty::ListPt, "&[Pt]"),
     ("own", Ty::Owned, "String"),
+    ("gift", Ty::Gift, "String"),
 ];
 
 #[derive(Clone)]
@@ -80,6 +84,8 @@ struct Scope {
     vars: Vec<(String, Ty)>,
     content: Vec<String>,
     in_loop: bool,
+    /// the by-value use of `gift` has been generated (or must not be: a later use would be a use after move)
+    gift_used: bool,
 }
 
 impl Scope {
@@ -276,6 +282,26 @@ fn gen_body(r: &mut Rng, sc: &mut Scope, depth: usize, budget: &mut usize, calle
                                 }
                                 _ => gen_body(r, sc, depth.saturating_sub(1), budget, &callees[ci + 1..]),
                             };
+                            let mut body = body;
+                            if !sc.in_loop && !sc.gift_used && ci + 1 < callees.len() && r.chance(1, 2) {
+                                // the block hands an owned value on *by value* (`gift`, not `gift.clone()`): the closure
+                                // built for the block consumes its capture, which a call-once closure may do
+                                sc.gift_used = true;
+                                let inner = &callees[ci + 1 + r.below(callees.len() - ci - 1)];
+                                let mut a2 = Vec::new();
+                                for (pn2, _pt2, is_content2) in &inner.params {
+                                    if *is_content2 {
+                                        a2.push(Arg::Body(vec![Node::Text(b"(given)".to_vec())]));
+                                    } else if pn2 == "own" {
+                                        a2.push(Arg::Rust("gift".to_string()));
+                                    } else if pn2 == "gift" {
+                                        a2.push(Arg::Rust("own.clone()".to_string()));
+                                    } else {
+                                        a2.push(Arg::Rust(pn2.to_string()));
+                                    }
+                                }
+                                body.push(Node::Call { name: inner.fn_name(), args: a2 });
+                            }
                             args.push(Arg::Body(body));
                         } else {
                             let ty = GLOBALS.iter().find(|g| g.0 == pn).map(|g| g.1).unwrap();
@@ -287,6 +313,9 @@ fn gen_body(r: &mut Rng, sc: &mut Scope, depth: usize, budget: &mut usize, calle
                                 args.push(Arg::Rust(r.pick(lits).to_string()));
                             } else if ty == Ty::Owned {
                                 args.push(Arg::Rust(format!("{}.clone()", r.pick(&cands))));
+                            } else if ty == Ty::Gift {
+                                // never the caller's own `gift` (it may have been given away already)
+                                args.push(Arg::Rust("own.clone()".to_string()));
                             } else {
                                 args.push(Arg::Rust(r.pick(&cands).to_string()));
                             }
@@ -347,7 +376,7 @@ pub fn gen_program(r: &mut Rng, id: usize, depth: usize) -> Program {
             }
         }
         let callees: Vec<TplDef> = tpls.clone();
-        let mut sc = Scope { vars: GLOBALS.iter().map(|(n, t, _)| (n.to_string(), *t)).collect(), content, in_loop: false };
+        let mut sc = Scope { vars: GLOBALS.iter().map(|(n, t, _)| (n.to_string(), *t)).collect(), content, in_loop: false, gift_used: false };
         let mut budget = 10;
         let mut body = gen_body(r, &mut sc, depth, &mut budget, &callees);
         // make sure something is rendered and the leading-layout rule does not bite
@@ -471,6 +500,7 @@ impl EnvVals {
             },
             "pts" => format!("&[{}]", self.pts.iter().map(|(x, y)| format!("Pt {{ x: {x}, y: {y} }}")).collect::<Vec<_>>().join(", ")),
             "own" => format!("String::from({})", rs(&self.own)),
+            "gift" => format!("String::from({})", rs(&format!("gift:{}", self.own))),
             _ => "()".into(),
         }
     }
@@ -490,6 +520,7 @@ impl EnvVals {
             ("q", match &self.q { Some(v) => format!("O(i{v})"), None => "O-".into() }),
             ("pts", format!("L[{}]", self.pts.iter().map(|(x, y)| format!("P{x}_{y}")).collect::<Vec<_>>().join(","))),
             ("own", sv(&self.own)),
+            ("gift", sv(&format!("gift:{}", self.own))),
         ];
         items.iter().map(|(n, v)| format!("{}={}", hex(n.as_bytes()), v)).collect::<Vec<_>>().join(";")
     }
